@@ -1542,4 +1542,27 @@ def check(ctx):
     gcs(ctx, P)
     blockfilter(ctx, P)
     pmt(ctx, P)
+    pmt_limits(ctx, P)
     ctx.floor("C51 obligations", len(ctx.obs), 60)
+
+
+# ------------------------------------------------------------------------------------------------ extraction limits
+def pmt_limits(ctx, P):
+    """ExtractMatches refuses a tree up front only for transaction counts no valid block can have: its upper limit on
+    nTransactions admits every count up to MAX_BLOCK_WEIGHT / MIN_TRANSACTION_WEIGHT (the most transactions a block can hold) -
+    a lower limit makes a correctly built tree of a large block extract a null root and no matches."""
+    f = ctx.used(P.fn("CPartialMerkleTree::ExtractMatches"))
+    most = P.const("MAX_BLOCK_WEIGHT") // P.const("MIN_TRANSACTION_WEIGHT")
+    walk = sites(f, lambda e: e[0] in ("mcall", "vcall") and e[1] == "CPartialMerkleTree::TraverseAndExtract", P)
+    first = min([s.line for s in walk] or [10 ** 9])
+    lims = []
+    for e in exits(f, P, naming(f, P)):
+        if e.kind != "ret" or e.line >= first:
+            continue
+        for k in F.atoms(e.own_formula(None)):
+            m = re.fullmatch(r"(?:.*\.)?nTransactions < (\d+)", k)
+            if m:
+                lims.append((e.line, int(m.group(1))))
+    ctx.ob("pmt/extract-count-limit", "LADDER", "before walking the tree ExtractMatches rejects a transaction count only above MAX_BLOCK_WEIGHT / MIN_TRANSACTION_WEIGHT "
+           "(= %d, the most transactions a valid block can hold)" % most, all(k - 1 >= most for _, k in lims), f.where, {"limits": lims, "needed": most})
+    ctx.floor("ExtractMatches transaction-count limits", len(lims), 1)
